@@ -754,6 +754,7 @@ func runC18(c *Ctx) {
 			})
 			c.check(good, "helper:trySplitHostPort", f.Pos(), "port = uint16(ParseUint(port, 10, 16)), error returned", why)
 		}
+		checkSplitHostIsNameOrIP(c)
 		if f := c.fn(relUpstream, "", "joinPort"); f != nil {
 			c.see(f)
 			good := false
